@@ -213,4 +213,19 @@ def explore(run, tier):
         c = c01.mk(cfg, 'cp500', gi % 2, m, {})
         c['unconfigured'] = f'DE{b}'
         cases.append(c)
+    # the merchant-name processor on different elements, with the packaged pattern / none / an empty one / a caller's own
+    pat = pkg['43']['field_processor_config']
+    for bit in (43, 61, 104):
+        for pi, pc in enumerate((pat, None, '', r'(?P<DE43_NAME>[A-Z0-9]+)\\(?P<DE43_ADDRESS>[A-Z 0-9]+)',
+                                 r'(?P<DE43_NAME>[^\\]+)\\(?P<DE43_ADDRESS>[^\\]*)(?:\\X(?P<DE43_POSTCODE>\d{4}))?')):
+            fc = {'field_name': 'merchant', 'field_type': 'LLVAR', 'field_length': 0, 'field_processor': 'DE43'}
+            if pc is not None:
+                fc['field_processor_config'] = pc
+            cfg = {'3': {'field_name': 'proc', 'field_type': 'FIXED', 'field_length': 6}, str(bit): fc}
+            for vi, v in enumerate(('BIG BOBS\\80 KERNDALE ST\\DANERLEY\\3103      VICAUS',
+                                     'BIG BOBS      \\80 KERNDALE ST   \\DANERLEY \\3103      VICAUS',
+                                     '12 AB\\STREET 1', 'NO SEPARATORS HERE', 'A\nB\\C\\D\\2000      NSWAUS')):
+                codec = codecs3[(bit + pi + vi) % 3]
+                m = {'MTI': '1240', 'DE3': '000000', f'DE{bit}': v}
+                cases.append(c01.mk(cfg, codec, (pi + vi) % 2, m, dict(m)))
     run.correspond(__name__, cases, use_model=run.use_model, chunk=150)
